@@ -1,10 +1,12 @@
 #!/bin/bash
 # runs every seeded change under /verif/seeded against the check of its property (scratch copy of /repo + patch; removed afterwards)
+# usage: ./run_seeds.sh [parallel jobs, default 2]
 cd "$(dirname "$0")"
 out=seeded/RESULTS.tsv
-echo -e "seed\tproperty\texit\tfirst_failed_obligation\tconfirmed_replay" > $out
-for d in seeded/C*-*/; do
-  s=$(basename $d); p=${s%-*}
+jobs=${1:-2}
+tmp=$(mktemp -d /tmp/osu-seedrun-XXXXXX)
+one() {
+  d=$1; s=$(basename $d); p=${s%-*}
   extra=""
   [ "$p" = "C03" ] && extra="C04 C02"
   [ "$p" = "C02" ] && extra="C01"
@@ -13,5 +15,10 @@ for d in seeded/C*-*/; do
   ob=$(echo "$res" | grep "failed obligation" | head -1 | sed 's/.*failed obligation: //')
   conf=$(echo "$res" | grep "VIOLATION" | grep -v "no-failing-input-found" | head -1 | sed 's/.*replay=//')
   [ -z "$ob" ] && ob=$(echo "$res" | grep -E "UNDECIDED|patch failed" | head -1 | cut -c1-120)
-  echo -e "$s\t$p $extra\t$ex\t$ob\t$conf" >> $out
-done
+  echo -e "$s\t$p $extra\t$ex\t$ob\t$conf" > $2/$s.tsv
+}
+export -f one
+ls -d seeded/C*-*/ | xargs -P $jobs -I{} bash -c "one {} $tmp"
+echo -e "seed\tproperty\texit\tfirst_failed_obligation\tconfirmed_replay" > $out
+cat $tmp/*.tsv | sort >> $out
+rm -rf $tmp
